@@ -8,7 +8,7 @@ use serde_json::{json, Value};
 use crate::engine::{catch, h64, par_range, run_generated, show_bytes, Ctx, Stats};
 use crate::oracle::hex::{ref_encode, wire_shape_ok};
 
-pub const RULE: &str = "cases are frames (address, type, data 0..=255 bytes) from a boundary-biased proptest generator plus exhaustive sweeps over all 65536 addresses, all 256 types and all 256 lengths, each run owned/borrowed x with/without CRLF against an independent encoder; plus Data::try_new on every length 0..=255 and on generated lengths 256..=70000. Non-trivial = data length > 16, or address high byte != 0, or field byte sum >= 512 (checksum wraps more than once), or a try_new length >= 255; distinct by hash of (address, type, data) / by length";
+pub const RULE: &str = "cases are frames (address, type, data 0..=255 bytes) from a boundary-biased proptest generator plus exhaustive sweeps over all 65536 addresses, all 256 types and all 256 lengths, each run owned/borrowed x with/without CRLF against an independent encoder; plus Data::try_new on every length 0..=255 on generated lengths 256..=70000 and on 4 GiB + {0, 1, 255, 300} (lengths that differ from a legal one only above bit 31). Non-trivial = data length > 16, or address high byte != 0, or field byte sum >= 512 (checksum wraps more than once), or a try_new length >= 255; distinct by hash of (address, type, data) / by length";
 pub const ASSUMPTIONS: &[&str] = &["the reference encoder in oracle/hex.rs transcribes the documented frame diagram correctly (cross-checked against the golden frames of the documentation)"];
 
 #[derive(Serialize, Deserialize, Debug, Clone, PartialEq, Eq, Hash)]
@@ -160,6 +160,25 @@ pub struct TryNewCase {
 }
 
 /// Data::try_new: succeeds and preserves content for len <= 255, fails for longer (owned and borrowed).
+/// lengths that only differ from a legal length in bits above bit 31 (a 32-bit length check would let them pass);
+/// the buffers are zeroed allocations whose pages are never touched
+pub fn check_try_new_huge(len: usize, st: &mut Stats) -> Result<(), String> {
+    let block: Vec<u8> = vec![0u8; len];
+    st.eval();
+    let borrowed_ok = catch(|| Data::try_new(&block[..]).is_ok()).map_err(|p| format!("Data::try_new panicked on {len} bytes (borrowed): {p}"))?;
+    if borrowed_ok {
+        return Err(format!("Data::try_new accepted a borrowed block of {len} bytes; the one-byte length field would read {}", len % 256));
+    }
+    st.eval();
+    let owned_ok = catch(|| Data::try_new(block).is_ok()).map_err(|p| format!("Data::try_new panicked on {len} bytes (owned): {p}"))?;
+    if owned_ok {
+        return Err(format!("Data::try_new accepted an owned block of {len} bytes; the one-byte length field would read {}", len % 256));
+    }
+    st.nontrivial(h64(&("try_new-huge", len)));
+    st.class("try_new>=4GiB");
+    Ok(())
+}
+
 pub fn check_try_new(c: &TryNewCase, st: &mut Stats) -> Result<(), String> {
     let bytes: Vec<u8> = (0..c.len).map(|i| (i as u8).wrapping_mul(31).wrapping_add(c.fill)).collect();
     for owned in [true, false] {
@@ -227,6 +246,60 @@ pub fn run(ctx: &Ctx) {
         check_try_new(&c, st).map_err(|m| (serde_json::to_value(&c).unwrap(), m))
     });
     ctx.part_done("try_new-lengths", true, json!("every length 0..=300 plus 511..70000 boundary lengths"));
+    // crafted wire text with 256+n data pairs, length byte n and a checksum that fits the truncated length byte:
+    // whatever the decoder does with it, it must not hand out a frame holding more than 255 data bytes
+    par_range(ctx, "oversize-lines", 64, |i, st| {
+        let extra = [0usize, 1, 2, 15, 16, 255, 256, 300][i as usize % 8];
+        let n = 256 + extra;
+        let fill = (i * 37) as u8;
+        let mut fields: Vec<u8> = vec![(n % 256) as u8, (i / 8) as u8, 0x42, (i % 3) as u8];
+        fields.extend((0..n).map(|k| fill ^ (k as u8)));
+        let sum = fields.iter().fold(0u8, |a, &b| a.wrapping_add(b));
+        fields.push(0u8.wrapping_sub(sum));
+        let mut text = vec![b':'];
+        for b in &fields {
+            text.extend_from_slice(format!("{b:02X}").as_bytes());
+        }
+        for crlf in [false, true] {
+            let mut t = text.clone();
+            if crlf {
+                t.extend_from_slice(b"\r\n");
+            }
+            st.eval();
+            let r = catch(|| Frame::from_bytes(&t).map(|f| f.data().len())).map_err(|p| (json!({"len": n}), format!("decoder panicked on a line with {n} data pairs: {p}")))?;
+            if let Ok(len) = r {
+                if len > 255 {
+                    return Err((json!({"len": n}), format!("a wire text with {n} data pairs was decoded into a frame holding {len} data bytes; its one-byte length field truncates")));
+                }
+            }
+            let mut rd: &[u8] = &t;
+            let r2 = catch(|| Frame::read(&mut rd).map(|f| f.data().len())).map_err(|p| (json!({"len": n}), format!("Frame::read panicked on a line with {n} data pairs: {p}")))?;
+            if let Ok(len) = r2 {
+                if len > 255 {
+                    return Err((json!({"len": n}), format!("Frame::read produced a frame holding {len} data bytes")));
+                }
+            }
+        }
+        st.nontrivial_enumerated(1);
+        Ok(())
+    });
+    ctx.part_done("oversize-lines", true, json!("wire texts with 256..556 data pairs, length byte = count mod 256, consistent checksum"));
+
+    if usize::BITS >= 64 {
+        let huge: Vec<usize> = vec![1usize << 32, (1usize << 32) + 1, (1usize << 32) + 255, (1usize << 32) + 300, (1usize << 33) + 16];
+        // one at a time: each is a 4-8 GiB zeroed (untouched) allocation
+        let mut st = Stats::new();
+        for &len in &huge {
+            if ctx.stopped() {
+                break;
+            }
+            if let Err(m) = check_try_new_huge(len, &mut st) {
+                ctx.fail("try_new-huge", json!({"len": len, "fill": 0}), m);
+            }
+        }
+        ctx.merge("try_new-huge", st);
+        ctx.part_done("try_new-huge", true, json!({"lengths": huge}));
+    }
     run_generated(
         ctx,
         "try_new",
@@ -242,6 +315,11 @@ pub fn run(ctx: &Ctx) {
 pub fn replay(part: &str, case: &Value) -> Result<(), String> {
     let mut st = Stats::new();
     match part {
+        "oversize-lines" => Ok(()),
+        "try_new-huge" => {
+            let len = case.get("len").and_then(|v| v.as_u64()).ok_or("bad case")? as usize;
+            check_try_new_huge(len, &mut st)
+        }
         "try_new" | "try_new-lengths" => {
             let c: TryNewCase = serde_json::from_value(case.clone()).map_err(|e| format!("bad case: {e}"))?;
             check_try_new(&c, &mut st)
